@@ -72,8 +72,12 @@ type vQCons struct {
 type vQRun struct {
 	mu       sync.Mutex
 	out      *vOut
-	q        readableQueue[vReq]
-	mq       *memoryQueue[vReq]
+	// the queue under test, behind closures so that the memory and the persistent queue share the script runner
+	offerFn    func(ctx context.Context, id int, size int64) error
+	readFn     func() (int, Done, bool)
+	sizeFn     func() int64
+	qidsFn     func() []int // ids still queued, head first (read from the implementation's own structures)
+	shutdownFn func()
 	prods    map[int]*vQProd
 	cons     map[int]*vQCons
 	dones    map[int]Done
@@ -99,12 +103,10 @@ func (r *vQRun) snapshot() {
 	r.mu.Lock()
 	defer r.mu.Unlock()
 	var q []string
-	r.mq.mu.Lock()
-	for n := r.mq.items.head; n != nil; n = n.next {
-		q = append(q, fmt.Sprint(n.data.id))
-		r.seen[n.data.id] = true
+	for _, id := range r.qidsFn() {
+		q = append(q, fmt.Sprint(id))
+		r.seen[id] = true
 	}
-	r.mq.mu.Unlock()
 	var ps, cs []string
 	var pk, ck []int
 	for p, x := range r.prods {
@@ -143,7 +145,7 @@ func (r *vQRun) snapshot() {
 		}
 		return strings.Join(xs, ",")
 	}
-	r.out.Linef("obs size=%d Q=%s P=%s C=%s", r.q.Size(), j(q), j(ps), j(cs))
+	r.out.Linef("obs size=%d Q=%s P=%s C=%s", r.sizeFn(), j(q), j(ps), j(cs))
 	if r.pendDone > 0 {
 		r.out.Linef("viol sig=C02/queue/ondone-blocked OnDone did not return at quiescence")
 	}
@@ -156,7 +158,7 @@ func (r *vQRun) apply(op vQOp) {
 		x := r.prod(op.a)
 		x.started, x.size = true, op.b
 		go func() {
-			err := r.q.Offer(x.ctx, vReq{id: op.a, size: op.b})
+			err := r.offerFn(x.ctx, op.a, op.b)
 			r.mu.Lock()
 			x.ret, x.res = true, vErrStr(err)
 			r.mu.Unlock()
@@ -175,14 +177,14 @@ func (r *vQRun) apply(op vQOp) {
 		}
 		x.started, x.blocked = true, true
 		go func() {
-			_, req, done, ok := r.q.Read(context.Background())
+			id, done, ok := r.readFn()
 			r.mu.Lock()
 			x.blocked = false
 			if ok {
-				x.last = fmt.Sprintf("i%d", req.id)
-				r.dones[req.id] = done
-				r.seen[req.id] = true
-				r.handed = append(r.handed, req.id)
+				x.last = fmt.Sprintf("i%d", id)
+				r.dones[id] = done
+				r.seen[id] = true
+				r.handed = append(r.handed, id)
 			} else {
 				x.last = "S"
 			}
@@ -214,7 +216,7 @@ func (r *vQRun) apply(op vQOp) {
 	case "shutdown":
 		r.out.Linef("op shutdown")
 		r.shut = true
-		_ = r.q.Shutdown(context.Background())
+		r.shutdownFn()
 	}
 	r.snapshot()
 }
@@ -251,7 +253,7 @@ func TestVerifC02Queue(t *testing.T) {
 	}()
 	synctest.Test(t, func(t *testing.T) {
 		for _, c := range vCases(n) {
-			vQueueCase(out, c)
+			vQueueCase(out, c, false, vNewMemoryRun)
 			out.Flush()
 			progress.Add(1)
 		}
@@ -259,15 +261,47 @@ func TestVerifC02Queue(t *testing.T) {
 	close(stop)
 }
 
-func vQueueCase(out *vOut, c int) {
+// vNewMemoryRun wires a real memoryQueue into the script runner.
+func vNewMemoryRun(out *vOut, capacity int64, block, wfr, _ bool) *vQRun {
+	sizer := request.SizeofFunc[vReq](func(r vReq) int64 { return r.size })
+	q := newMemoryQueue[vReq](memoryQueueSettings[vReq]{sizer: sizer, capacity: capacity, waitForResult: wfr, blockOnOverflow: block})
+	mq := q.(*memoryQueue[vReq])
+	return &vQRun{
+		out:     out,
+		offerFn: func(ctx context.Context, id int, size int64) error { return q.Offer(ctx, vReq{id: id, size: size}) },
+		readFn: func() (int, Done, bool) {
+			_, req, done, ok := q.Read(context.Background())
+			return req.id, done, ok
+		},
+		sizeFn: q.Size,
+		qidsFn: func() []int {
+			var ids []int
+			mq.mu.Lock()
+			for n := mq.items.head; n != nil; n = n.next {
+				ids = append(ids, n.data.id)
+			}
+			mq.mu.Unlock()
+			return ids
+		},
+		shutdownFn: func() { _ = q.Shutdown(context.Background()) },
+		prods:      map[int]*vQProd{}, cons: map[int]*vQCons{}, dones: map[int]Done{}, seen: map[int]bool{},
+	}
+}
+
+func vQueueCase(out *vOut, c int, persistent bool, mk func(out *vOut, capacity int64, block, wfr, reqSized bool) *vQRun) {
 	rnd := vRand(c)
 	capacity := int64(1 + rnd.IntN(10))
 	block := rnd.IntN(3) != 0
 	wfr := rnd.IntN(3) == 0
-	out.Linef("case %d cap=%d block=%d wfr=%d", c, capacity, vB(block), vB(wfr))
-	sizer := request.SizeofFunc[vReq](func(r vReq) int64 { return r.size })
-	q := newMemoryQueue[vReq](memoryQueueSettings[vReq]{sizer: sizer, capacity: capacity, waitForResult: wfr, blockOnOverflow: block})
-	r := &vQRun{out: out, q: q, mq: q.(*memoryQueue[vReq]), prods: map[int]*vQProd{}, cons: map[int]*vQCons{}, dones: map[int]Done{}, seen: map[int]bool{}}
+	reqSized := rnd.IntN(4) == 0
+	if persistent {
+		wfr = false
+		out.Linef("case %d cap=%d block=%d wfr=0 requests_sizer=%d", c, capacity, vB(block), vB(reqSized))
+	} else {
+		reqSized = false
+		out.Linef("case %d cap=%d block=%d wfr=%d", c, capacity, vB(block), vB(wfr))
+	}
+	r := mk(out, capacity, block, wfr, reqSized)
 	nCons := 1 + rnd.IntN(3)
 	maxProd := 3 + rnd.IntN(8)
 	nextP := 0
@@ -299,7 +333,7 @@ func vQueueCase(out *vOut, c int) {
 		switch k := rnd.IntN(20); {
 		case k == 0:
 			return 0
-		case k == 1:
+		case k == 1 && !persistent:
 			return -int64(1 + rnd.IntN(3))
 		case k == 2:
 			return capacity + int64(1+rnd.IntN(3))
@@ -333,7 +367,7 @@ func vQueueCase(out *vOut, c int) {
 		for _, id := range r.handed {
 			cands = append(cands, vQOp{"done", id, 0}, vQOp{"done", id, 0}, vQOp{"done", id, 0})
 		}
-		if !r.shut && rnd.IntN(40) == 0 {
+		if !r.shut && !persistent && rnd.IntN(40) == 0 {
 			cands = append(cands, vQOp{"shutdown", 0, 0})
 		}
 		if len(cands) == 0 {
@@ -343,6 +377,9 @@ func vQueueCase(out *vOut, c int) {
 		switch op.kind {
 		case "offer":
 			op.b = genSize()
+			if reqSized {
+				op.b = 1 // what the requests sizer reports, whatever the payload
+			}
 			if rnd.IntN(12) == 0 {
 				r.apply(vQOp{"cancel", nextP, 0}) // context already ended when Offer is called
 			}
@@ -364,9 +401,7 @@ func vQueueCase(out *vOut, c int) {
 		if len(blockedProds()) > 0 {
 			everBlocked = true
 		}
-		r.mq.mu.Lock()
-		has := r.mq.items.hasElements()
-		r.mq.mu.Unlock()
+		has := len(r.qidsFn()) > 0
 		fc := freeCons()
 		if has && len(fc) > 0 {
 			r.apply(vQOp{"read", fc[0], 0})
@@ -393,7 +428,7 @@ func vQueueCase(out *vOut, c int) {
 	if r.spaceBlk {
 		out.Linef("nt")
 	}
-	out.Linef("stat queue_cases_block%d_wfr%d 1", vB(block), vB(wfr))
+	out.Linef("stat queue_cases_block%d_wfr%d_persistent%d 1", vB(block), vB(wfr), vB(persistent))
 	out.Linef("stat queue_producers %d", nextP)
 	out.Linef("stat queue_ever_blocked %d", vB(everBlocked))
 	out.Linef("stat queue_blocked_for_space %d", vB(r.spaceBlk))
